@@ -4,12 +4,12 @@
 set -u
 ID=$1; SRC=$2; W=/tmp/vf_$ID; OUT=/verif/seeded/$ID
 rm -rf $W; git -C /repo worktree prune; git -C /repo worktree add -q --detach $W HEAD || exit 1
-mkdir -p $OUT; cp $SRC/seed/patch.diff $OUT/patch.diff; cp $SRC/seed/meta.json $OUT/meta_agent.json 2>/dev/null; cp $SRC/seed/demo* $OUT/ 2>/dev/null
+mkdir -p $OUT; cp $SRC/seed/patch.diff $OUT/patch.diff; cp /repo/SRC/superlu_config.h $W/SRC/ 2>/dev/null; cp $SRC/seed/meta.json $OUT/meta_agent.json 2>/dev/null; cp $SRC/seed/demo* $OUT/ 2>/dev/null
 cd $W
 build() { cmake -G Ninja -S $W -B $W/_build -DCMAKE_BUILD_TYPE=RelWithDebInfo >/dev/null 2>&1 && cmake --build $W/_build -j8 >/dev/null 2>&1; }
 demo() { # compile the demo against this worktree
   if [ -f $OUT/demo.sh ]; then (cd $OUT && WT=$W bash demo.sh); return $?; fi
-  sed "s#/tmp/wt_[A-Za-z0-9_]*#$W#g" $OUT/demo.c > $W/demo_v.c
+  sed "s#/tmp/wtb\?_[A-Za-z0-9_]*#$W#g" $OUT/demo.c > $W/demo_v.c
   EXTRA=""; [ -f $OUT/ccargs ] && EXTRA=$(sed "s#\$W#$W#g" $OUT/ccargs)
   cc -I$W/SRC -DUSE_VENDOR_BLAS $W/demo_v.c $EXTRA $W/_build/SRC/libsuperlu.a -lopenblas -lm -o $W/demo_v 2>$W/demo_cc.log || { cat $W/demo_cc.log | head -5; return 99; }
   (cd $W && timeout 300 ./demo_v >$W/demo_out.txt 2>&1); return $?
